@@ -2,6 +2,7 @@ package harness
 
 import (
 	"bytes"
+	"encoding/json"
 	"fmt"
 	"os"
 	"path"
@@ -42,7 +43,7 @@ func (c14) Describe() CheckInfo {
 		},
 		RealCode:       []string{"gopatch main()/mainCmd.Run, patchRunner, patch.Parse/File.Apply, internal/engine (compiled program, dotAssoc maps), go/token.FileSet shared across files and calls"},
 		Stubs:          []string{"package os", "path/filepath walk", "io/ioutil", "choice of which caller goroutine runs next (simrt scheduler)"},
-		RequiredProbes: []string{"cli-grouped-vs-solo", "cli-permutation", "cli-unparseable-neighbour", "cli-repeat-identical", "hist-call", "hist-failing-call", "sched-run", "sched-overlap", "sched-preempt-sweep", "sched-concurrent-parse", "sched-pct", "race-log-checked"},
+		RequiredProbes: []string{"cli-grouped-vs-solo", "cli-permutation", "cli-unparseable-neighbour", "cli-repeat-identical", "hist-call", "hist-failing-call", "hist-result-held", "sched-run", "sched-overlap", "sched-preempt-sweep", "sched-concurrent-parse", "sched-pct", "sched-two-switch-site-uniform", "race-log-checked"},
 	}
 }
 
@@ -207,6 +208,7 @@ func c14GenCLI(r *world.PRNG, seed uint64, i int) *Case {
 			}
 		}
 	}
+	AddDecoys(c, r)
 	c.Flags = Flags{SkipImport: r.Chance(1, 4), SkipGen: r.Chance(1, 2), Verbose: false}
 	for _, f := range c.Files {
 		c.Targets = append(c.Targets, strings.TrimPrefix(f.Path, ProjDir+"/"))
@@ -265,9 +267,15 @@ func c14GenSched(r *world.PRNG, seed uint64, i int, tier string) *Case {
 	case roll < 60:
 		sc.Policy = "rr"
 		sc.Param = r.Range(1, 400)
-	default:
+	case roll < 80:
 		sc.Policy = "preempt"
 		sc.Param = -1 // drawn from the solo length at evaluation time
+	default:
+		// two switches: 0 -> 1 at a point chosen uniformly over the yield SITES of
+		// task 0's call (biased towards the shallow orchestration code of the API),
+		// then 1 -> 0 at a site-uniform point of task 1's call: task 0 finishes
+		// while task 1 is suspended in mid-call
+		sc.Policy = "preempt2"
 	}
 	c.Sched = sc
 	return c
@@ -535,21 +543,39 @@ func diffRuns(a, b *RunResult) string {
 // ---------------------------------------------------------------------------
 // (2) histories of Apply on one parsed patch
 
-func c14EvalHist(env *Env, c *Case) []Violation {
-	var vs []Violation
+func c14EvalHist(env *Env, c *Case) (vs []Violation) {
 	shared, pres := ParseAPI(env.Prog, "p.patch", c.APIPatch)
 	if shared == nil {
 		_ = pres
 		return nil
 	}
 	shape := ""
+	type kept struct {
+		raw  []byte // the slice Apply returned, NOT copied
+		want []byte
+		idx  int
+	}
+	var held []kept
+	defer func() {
+		// a result must stay what it was after later calls on the same parsed patch
+		for _, k := range held {
+			if !bytes.Equal(k.raw, k.want) {
+				vs = append(vs, Violation{Oracle: "history", Signature: "C14/history/result-changed-later", Detail: fmt.Sprintf("the bytes returned by call #%d on a shared parsed patch (%s) were %q when returned and read %q after %d later calls", k.idx+1, c.Extra["patch"], clip(string(k.want), 200), clip(string(k.raw), 200), len(c.Calls)-k.idx-1)})
+				break
+			}
+		}
+	}()
 	for i, call := range c.Calls {
 		fresh, _ := ParseAPI(env.Prog, "p.patch", c.APIPatch)
 		if fresh == nil {
-			return nil
+			return vs
 		}
 		want := ApplyAPI(fresh, call.Filename, call.Src)
 		got := ApplyAPI(shared, call.Filename, call.Src)
+		if got.Raw != nil && !got.IsErr {
+			held = append(held, kept{raw: got.Raw, want: got.Out, idx: i})
+			env.Probe("hist-result-held")
+		}
 		env.Probe("hist-call")
 		if want.IsErr || want.Panic != "" {
 			env.Probe("hist-failing-call")
@@ -717,6 +743,49 @@ func c14EvalSched(env *Env, c *Case) []Violation {
 		}
 		sc.Param = int(1 + r.Uint64()%first)
 	}
+	if sc.Policy == "preempt2" {
+		r := world.NewPRNG(sc.Seed)
+		pick := func(task int) uint64 {
+			for _, call := range c.Calls {
+				if call.Task != task || call.Parse {
+					continue
+				}
+				fresh, _ := ParseAPI(env.Prog, "p.patch", c.APIPatch)
+				if fresh == nil {
+					return 1
+				}
+				simrt.RecordFirst(true)
+				ApplyAPI(fresh, call.Filename, call.Src)
+				fs := simrt.FirstSeen()
+				simrt.RecordFirst(false)
+				var all, shallow []uint64
+				var ids []int
+				for id := range fs {
+					ids = append(ids, int(id))
+				}
+				sort.Ints(ids)
+				for _, id := range ids {
+					all = append(all, fs[uint32(id)])
+					if shallowSite(uint32(id)) {
+						shallow = append(shallow, fs[uint32(id)])
+					}
+				}
+				if len(all) == 0 {
+					return 1
+				}
+				if len(shallow) > 0 && r.Chance(1, 2) {
+					return shallow[r.Intn(len(shallow))]
+				}
+				return all[r.Intn(len(all))]
+			}
+			return 1
+		}
+		y1 := pick(0)
+		y2 := pick(1)
+		sc.Policy = "explicit"
+		sc.Switches = []simrt.Switch{{Yield: y1, From: 0, To: 1}, {Yield: y1 + y2, From: 1, To: 0}}
+		env.Probe("sched-two-switch-site-uniform")
+	}
 	got := make([]APIResult, len(c.Calls))
 	done := make([]chan struct{}, ntasks)
 	fns := make([]func(), ntasks)
@@ -820,6 +889,29 @@ func c14EvalSched(env *Env, c *Case) []Violation {
 	}
 	_ = path.Base
 	return vs
+}
+
+var siteFiles map[uint32]string
+
+// shallowSite reports whether a yield site lies in the orchestration code of
+// the library API or the CLI (as opposed to the engine underneath).
+func shallowSite(id uint32) bool {
+	if siteFiles == nil {
+		siteFiles = map[uint32]string{}
+		if b, err := os.ReadFile(os.Getenv("VERIF_SITES")); err == nil {
+			var sites []struct {
+				ID   uint32 `json:"id"`
+				File string `json:"file"`
+			}
+			if json.Unmarshal(b, &sites) == nil {
+				for _, s := range sites {
+					siteFiles[s.ID] = s.File
+				}
+			}
+		}
+	}
+	f := siteFiles[id]
+	return strings.HasPrefix(f, "patch/") || !strings.Contains(f, "/")
 }
 
 func firstN(s []simrt.Switch, n int) []simrt.Switch {
